@@ -5,9 +5,10 @@ CONSTANTS
   ByteStrings <- BytesThorough
   NumSeqs <- NumsThorough
   NewObjs <- MCNewObjs
+  InheritBound <- MCInheritBound
   MaxDepth = 10
   Starts <- StartsThorough
-  Allowed = {}
+  Allowed = {"resources.shadow.deep", "fresh.aboveMax", "maxid.setObject", "counts.indirect", "delete.bookmark"}
   Emit = TRUE
   EmitMod = 1
   EmitModV = 1
